@@ -8,6 +8,9 @@ import (
 
 var verifC07Seeds = []string{
 	"// header\npackage p\n\nimport \"fmt\"\n\nvar top§ = fmt.Sprint(1)\n\ncss k(§ string) {\n\tcolor: { § };\n}\n\ntempl a(§ string, xs []string) {\n\t<div title={ § } hidden?={ § == \"\" } { attrs(§)... }\n\t\tif § != \"\" {\n\t\t\tclass=\"c\"\n\t\t}\n\t>é { § }</div>\n\tif § == \"a\" {\n\t\tx\n\t} else if § == \"b\" {\n\t\ty\n\t}\n\tfor _, v := range xs {\n\t\t{ v }{ § }\n\t}\n\tswitch § {\n\t\tcase \"q\":\n\t\t\tz\n\t\tcase \"r\":\n\t\t\t<b>k</b>\n\t\tdefault:\n\t\t\tm\n\t}\n\t<b>k</b>\n\t{{ w := § }}\n\t<i class={ § }></i>\n\t@b(w)\n\t<script>var q = {{ § }};</script>\n\t{ fmt.Sprint(\n\t\t§,\n\t\t\"é\",\n\t) }\n}\n\ntempl b(s string) {\n\t{ s }\n}\n\nfunc attrs(s string) map[string]any {\n\treturn nil\n}\n",
+	// expressions padded with white space inside their braces ('¶' = symbolic white space that may
+	// hold a line break); top-level Go blocks that end in a comment line (doc comments, trailing comment)
+	"package p\n\n// k is §\ncss k(§ string) {\n\tcolor: {¶§¶};\n}\n\nvar v§ = 1\n\n// a shows §\ntempl a(§ string) {\n\t<div title={¶§¶}>{¶§¶}</div>\n}\n\n// end §\n",
 }
 
 func verifC07Ident(name string, max int) string {
@@ -45,10 +48,26 @@ func VerifC07Generate() {
 		id += "é"
 	}
 	crlf := symBool("crlf")
+	pad := " "
+	for i := 0; i+1 < len(seed); i++ {
+		if seed[i] == 0xC2 && seed[i+1] == 0xB6 {
+			pad = symString("pad", 2)
+			symAssume(len(pad) >= 1)
+			for j := 0; j < len(pad); j++ {
+				symAssume(pad[j] == ' ' || pad[j] == '\t' || pad[j] == '\n')
+			}
+			break
+		}
+	}
 	src := ""
 	for i := 0; i < len(seed); i++ {
 		if seed[i] == 0xC2 && i+1 < len(seed) && seed[i+1] == 0xA7 {
 			src += id
+			i++
+			continue
+		}
+		if seed[i] == 0xC2 && i+1 < len(seed) && seed[i+1] == 0xB6 {
+			src += pad
 			i++
 			continue
 		}
@@ -118,5 +137,5 @@ func VerifC07Generate() {
 			off += wd
 		}
 	}
-	symAssert(checked > 50, "the walk visited the expressions")
+	symAssert(checked > 20, "the walk visited the expressions")
 }
